@@ -8,7 +8,12 @@ package api
 // by value with absent == "" (the code cannot tell them apart), in BOTH directions.
 // User allocations and origins are compared by length only here (their element comparison goes
 // through sort.Strings/strings.Join and multiaddr.Equal, which are library code).
-//@ spec func optsEq(a PinOptions, b PinOptions) bool = a.Name == b.Name && a.Mode == b.Mode && a.ReplicationFactorMin == b.ReplicationFactorMin && a.ReplicationFactorMax == b.ReplicationFactorMax && a.ShardSize == b.ShardSize && len(a.UserAllocations) == len(b.UserAllocations) && a.ExpireAt == b.ExpireAt && (forall k string :: k != "" ==> a.Metadata[k] == b.Metadata[k]) && len(a.Origins) == len(b.Origins)
+//@ spec func optsEq(a PinOptions, b PinOptions) bool = a.Name == b.Name && a.Mode == b.Mode && a.ReplicationFactorMin == b.ReplicationFactorMin && a.ReplicationFactorMax == b.ReplicationFactorMax && a.ShardSize == b.ShardSize && len(a.UserAllocations) == len(b.UserAllocations) && a.ExpireAt == b.ExpireAt && (forall k string :: k != "" ==> a.Metadata[k] == b.Metadata[k]) && len(a.Origins) == len(b.Origins) && (forall i int :: 0 <= i && i < len(a.Origins) ==> exists j int :: 0 <= j && j < len(b.Origins) && maEqual(a.Origins[i], b.Origins[j]))
+
+//@ spec func maEqual(x multiaddr.Multiaddr, y multiaddr.Multiaddr) bool = uf("maEqual", "bool", x, y)
+
+//@ extern multiaddr.Multiaddr.Equal(o)
+//@   ensures res == maEqual(self, o)
 
 //@ func (po *PinOptions) Equals
 //@   property C04 C08
@@ -18,6 +23,10 @@ package api
 //@   loop 2 (range po2.Metadata)
 //@     invariant forall k string :: in(k, seen2) && k != "" ==> po.Metadata[k] == po2.Metadata[k]
 //@     invariant forall k string :: haskey(po.Metadata, k) && k != "" ==> po.Metadata[k] == po2.Metadata[k]
+//@   loop 3 (range po.Origins)
+//@     invariant forall i int :: 0 <= i && i < idx3 ==> exists j int :: 0 <= j && j < len(po2.Origins) && maEqual(po.Origins[i], po2.Origins[j])
+//@   loop 4 (range po2.Origins)
+//@     invariant found ==> exists j int :: 0 <= j && j < idx4 && maEqual(o1, po2.Origins[j])
 //@   modifies nothing
 
 //@ func PeersToStrings
